@@ -260,6 +260,32 @@ def check_weekday_type(case):
         expect_err('WEEKDAY(%s,%s)' % (D, str(t) if t >= 0 else '-%d' % -t), '#NUM!')
 
 
+# ---------------------------------------------------------------- the process time zone does not matter
+
+TZ_FORMULAS = ['YEAR(43831)&"-"&MONTH(43831)&"-"&DAY(43831)', 'DAY(43831)', 'HOUR(43831.75)&":"&MINUTE(43831.75)', 'DAYS("2020-07-01","2020-01-01")', 'DAYS(DATE(2020,1,1),DATE(2020,7,1))', 'DATEDIF("2020-01-01","2020-07-01","d")',
+               'DATEDIF(DATE(2019,3,30),DATE(2019,3,31),"d")', 'DATEDIF(DATE(2020,1,31),DATE(2020,11,1),"m")', 'WEEKDAY(43901)', 'WEEKDAY(DATE(2019,3,31),2)', 'YEAR(2958465)', 'DAY(61)&"/"&MONTH(61)', 'EDATE(DATE(2019,3,31),7)',
+               'DAY(EDATE("2019-10-27",1))', 'HOUR(TIME(2,30,0))', 'SECOND("2019-03-31T02:30:15")', 'HOUR("2019-11-03 01:30:00")', 'YEAR(DATE(2019,12,31)+1)', 'DAY(44000.999)']
+
+
+def enum_tz(tier, shard, nshards):
+    zones = ['Europe/Berlin', 'America/New_York', 'Australia/Sydney', 'Asia/Tokyo', 'Pacific/Kiritimati', 'America/Sao_Paulo']
+    for i, z in enumerate(zones[:3] if tier == 'quick' else zones):
+        if i % nshards == shard:
+            yield z
+
+
+def check_tz(zone):
+    import os
+    from ..freshproc import run_fresh
+    if not os.path.exists('/usr/share/zoneinfo/' + zone):
+        raise Skip('zone-data-missing')
+    base = run_fresh(TZ_FORMULAS, env_extra={'TZ': 'UTC'})
+    other = run_fresh(TZ_FORMULAS, env_extra={'TZ': zone})
+    for f, a, b in zip(TZ_FORMULAS, base, other):
+        if a != b:
+            raise Violation('in a process whose time zone is %s, %s gives %s; under UTC it gives %s (calendar components and day counts do not depend on the zone of the process)' % (zone, f, b, a), b, a)
+
+
 # ---------------------------------------------------------------- EDATE
 
 @st.composite
@@ -334,6 +360,8 @@ LAWS = [
         nontrivial=lambda c: c['a'] != c['b'],
         rule='date pairs (uniform, within +-40 days, same day-of-month, month ends, 29 Feb) spelled as DATE() literals, date-time variables or ISO text; '
              'DAYS and DATEDIF d/m/y/ym (either letter case) vs datetime.date arithmetic; #NUM! when start > end; non-trivial = distinct dates'),
+    Law('timezone_independence', check_tz, enumerate=enum_tz, shards=(3, 6), guard=400,
+        rule='19 formulas over serials, date text, DAYS, DATEDIF, WEEKDAY, EDATE and TIME are evaluated in a brand-new interpreter under TZ=UTC and under Berlin, New York, Sydney (thorough: also Tokyo, Kiritimati, Sao Paulo): every outcome is the same'),
     Law('weekday_types', check_weekday_type, quick=300, thorough=5000, shards=(2, 4),
         strategy=st.tuples(st.integers(rd.FIRST_ORD, rd.LAST_ORD), st.one_of(st.sampled_from([0, 4, 11, 17, -1, 2.5, 1.5, 3.5]), st.integers(4, 50), st.integers(-20, 0))).map(list),
         rule='WEEKDAY(date, t) for numeric t other than 1, 2, 3 is #NUM!'),
